@@ -30,6 +30,18 @@ def directed(rng, start):
     return j, [['replace_subcircuit', sub, im, om], ['copy'], ['mark_as_output', om[0][1]]]
 
 
+def directed_blocks(rng, start):
+    """a block whose listed output reads a member without being one, then `remove_block`: the members are still in
+    use from outside, the call has to be refused (or at least must not leave a dangling operand)"""
+    ops = {g[0]: g[2] for g in start['gates']}
+    readers = [(o, l) for l, os_ in ops.items() for o in os_ if start and any(g[0] == o and g[1] != 'INPUT' for g in start['gates'])]
+    if not readers:
+        return None
+    member, reader = rng.choice(readers)
+    name = 'DB'
+    return start, [['make_block', name, [member], [reader], None if rng.random() < 0.5 else list(ops[member])], ['remove_block', name], ['copy']]
+
+
 def correspondence(ctx):
     rng = ctx.rng('corr')
     reqs = []
@@ -38,6 +50,8 @@ def correspondence(ctx):
         start, steps = gen_history(rng, rng.randint(5, ctx.scale(14, 25)), ops)
         if k % 10 == 9:
             start, steps = directed(rng, start) or (start, steps)
+        if k % 10 == 4:
+            start, steps = directed_blocks(rng, start) or (start, steps)
         reqs.append({'op': 'mutate', 'c': start, 'steps': steps})
         for s in steps:
             ctx.count('op:' + s[0])
@@ -57,6 +71,8 @@ def search(ctx):
         start, steps = gen_history(rng, rng.randint(5, ctx.scale(14, 25)))
         if k % 10 == 9:
             start, steps = directed(rng, start) or (start, steps)
+        if k % 10 == 4:
+            start, steps = directed_blocks(rng, start) or (start, steps)
         res = py_mutate({'c': start, 'steps': steps})['ok']
         good = [x for x in res if 'err' not in x]
         ctx.case(json.dumps(['s', start['gates'], steps]), len(good) >= 3)
